@@ -168,10 +168,18 @@ func GenPlotCase(t *rapid.T, maxN int) PlotCase { return GenPlotCaseMin(t, 1, ma
 // GenPlotCaseMin draws a plot case whose first attack has at least minN results.
 func GenPlotCaseMin(t *rapid.T, minN, maxN int) PlotCase {
 	names := rapid.SampledFrom([][]string{{""}, {"a"}, {"50qps", "100qps"}, {"a", "ab", "abc"}, {"x", "x: OK", "y"}, {"A", "a", "B", "b"}}).Draw(t, "names")
+	// one result file per host of a fleet, or per step of a rate sweep: hundreds of attack names in one plot, a few results each
+	fleet := minN <= 1 && rapid.IntRange(0, 11).Draw(t, "fleet") == 0
+	if fleet {
+		names = nil
+		for i, k := 0, rapid.IntRange(100, 300).Draw(t, "fleetsize"); i < k; i++ {
+			names = append(names, fmt.Sprintf("host-%03d", i))
+		}
+	}
 	var c PlotCase
 	for ai, name := range names {
 		n := rapid.IntRange(1, maxN).Draw(t, fmt.Sprintf("n%d", ai))
-		if rapid.IntRange(0, 3).Draw(t, fmt.Sprintf("tiny%d", ai)) == 0 {
+		if fleet || rapid.IntRange(0, 3).Draw(t, fmt.Sprintf("tiny%d", ai)) == 0 {
 			n = rapid.IntRange(1, 6).Draw(t, fmt.Sprintf("n2%d", ai))
 		}
 		if ai == 0 && minN > 1 {
@@ -299,6 +307,9 @@ func (c PlotCase) Classify() (nontrivial bool, rejected bool, labels []string) {
 	}
 	if rejected {
 		labels = append(labels, "threshold<3-rejected")
+	}
+	if len(exp) >= 256 {
+		labels = append(labels, "series>=256")
 	}
 	return (!c.InOrder() && len(exp) >= 2) || (longer && c.Threshold >= 3), rejected, labels
 }
